@@ -405,7 +405,11 @@ pub fn run_guarded<P: Prop>(p: &P, case: &P::Case, env: &CaseEnv) -> Result<Case
             Err(Failure { msg: format!("panic during case: {}", m), sig: json!({"kind": "panic", "site": site}), detail: Value::Null })
         }
     };
-    let _ = std::fs::remove_dir_all(env.scratch_root());
+    if std::env::var("KVH_KEEP_SCRATCH").is_ok() {
+        eprintln!("scratch kept: {}", env.scratch_root().display());
+    } else {
+        let _ = std::fs::remove_dir_all(env.scratch_root());
+    }
     out
 }
 
@@ -760,7 +764,9 @@ pub fn finish(ctx: &Ctx, level: &str) -> i32 {
         viol.len(),
         ctx.elapsed_s()
     );
-    let _ = std::fs::remove_dir_all(&ctx.scratch_base);
+    if std::env::var("KVH_KEEP_SCRATCH").is_err() {
+        let _ = std::fs::remove_dir_all(&ctx.scratch_base);
+    }
     if !viol.is_empty() {
         for v in viol.iter() {
             println!("VIOLATION property={} replay={}", ctx.prop, v.replay.display());
